@@ -362,7 +362,7 @@ static ares_bool_t ares_hosts_entry_isdup(ares_hosts_entry_t *entry,
 {
   ares_llist_node_t *node;
 
-  for (node = ares_llist_node_first(entry->ips); node != NULL;
+  for (node = ares_llist_node_first(entry->hosts); node != NULL;
        node = ares_llist_node_next(node)) {
     const char *myhost = ares_llist_node_val(node);
     if (ares_strcaseeq(myhost, host)) {
